@@ -74,14 +74,21 @@ pub(super) struct Graph {
     live: Vec<bool>,
 }
 
-pub(super) fn g_build(dims: &[usize], nl: usize, tracked: &[bool], nodes: &[(u8, usize, usize)]) -> Graph {
+pub(super) fn g_build(dims: &[usize], nl: usize, tracked: &[bool], nodes: &[(u8, usize, usize)], conc: u8) -> Graph {
     let n = numel(dims);
     let mut arrs: Vec<Array> = Vec::with_capacity(nl + nodes.len());
     let mut logs: Vec<Option<UserOpLog>> = Vec::with_capacity(nl + nodes.len());
     let mut live: Vec<bool> = Vec::with_capacity(nl + nodes.len());
     let mut l = 0;
     while l < nl {
-        let a = mk(dims, sym_vec(n, sym_val));
+        // conc != 0: concrete special values (zeros included), so that the walk's control flow stays concrete even
+        // if a change makes it depend on the values (zero-adjoint shortcuts and the like)
+        let a = if conc == 0 { mk(dims, sym_vec(n, sym_val)) } else {
+            let mut v = Vec::with_capacity(n);
+            let mut e = 0;
+            while e < n { v.push((((l * 3 + e * 2) % 5) as Float) - 2.0); e += 1; }
+            mk(dims, v)
+        };
         arrs.push(if tracked[l] { a.tracked() } else { a });
         logs.push(None);
         live.push(tracked[l]);
@@ -198,9 +205,9 @@ pub(super) fn g_all_clean(g: &Graph) -> bool {
 ///       2 = two passes (symbolic seed, then default seed) -> gradients add up (C10);
 ///       3 = pass with None, clear gradients, pass with explicit ones -> identical (C17 default seed, C10 clearing);
 ///       4 = pass from interior node `mid` first, then from the root -> sums (C10)
-pub(super) fn graph_check(dims: &[usize], nl: usize, tracked: &[bool], nodes: &[(u8, usize, usize)], root: usize, mode: u8, mid: usize) {
+pub(super) fn graph_check(dims: &[usize], nl: usize, tracked: &[bool], nodes: &[(u8, usize, usize)], root: usize, mode: u8, mid: usize, conc: u8) {
     let n = numel(dims);
-    let g = g_build(dims, nl, tracked, nodes);
+    let g = g_build(dims, nl, tracked, nodes, conc);
     let total = nl + nodes.len();
     // snapshots for the frame conditions
     let mut snaps: Vec<Snap> = Vec::with_capacity(total);
@@ -213,7 +220,13 @@ pub(super) fn graph_check(dims: &[usize], nl: usize, tracked: &[bool], nodes: &[
     }
     assert!(g_all_clean(&g), "precondition Clean(G) holds after construction");
 
-    let seed_vals = sym_vec(n, sym_val);
+    // conc 1: all-zero seed; conc 2: seed supported on the odd positions only (masked)
+    let seed_vals = if conc == 0 { sym_vec(n, sym_val) } else {
+        let mut v = Vec::with_capacity(n);
+        let mut e = 0;
+        while e < n { v.push(if conc == 2 && e % 2 == 1 { 2.0 } else { 0.0 }); e += 1; }
+        v
+    };
     let seed = mk(dims, seed_vals.clone());
     let ones = mk(dims, vec![1.0; n]);
 
@@ -410,7 +423,7 @@ pub(super) fn g_reaches(nl: usize, nodes: &[(u8, usize, usize)], live: &[bool], 
 }
 
 macro_rules! graph_instance {
-    ($name:ident, $unwind:expr, [$($d:expr),*], $nl:expr, [$($t:expr),*], [$(($op:expr, $i:expr, $j:expr)),*], $root:expr, $mode:expr, $mid:expr) => {
-        vk_harness!($name, $unwind, { graph_check(&[$($d),*], $nl, &[$($t),*], &[$(($op, $i, $j)),*], $root, $mode, $mid); });
+    ($name:ident, $unwind:expr, [$($d:expr),*], $nl:expr, [$($t:expr),*], [$(($op:expr, $i:expr, $j:expr)),*], $root:expr, $mode:expr, $mid:expr, $conc:expr) => {
+        vk_harness!($name, $unwind, { graph_check(&[$($d),*], $nl, &[$($t),*], &[$(($op, $i, $j)),*], $root, $mode, $mid, $conc); });
     };
 }
